@@ -946,3 +946,113 @@ Corollary read_card_follows_polls cfg w id its :
   run_handler (h_read_card (variant_ix "zvt::sequences::ReadCardResponse" "Abort") (variant_ix "zvt::sequences::ReadCardResponse" "StatusInformation"))
               f_read_card None its.
 Proof. intros t cmd C Hp Hf. unfold read_card. apply (call_follows_polls cfg _ _ _ _ id its LOOPFUEL w None C Hp Hf). Qed.
+
+(* ================================================================== from the bytes in the buffer to the result of the call *)
+(* When the replies of a whole exchange are already buffered on the current connection and the trace model (Sequence.v) says they
+   parse into the items `its`, the last of them final, then the polls go through (polls_ok) — hence, by call_follows_polls, the
+   public call returns the handler folded over exactly those items. *)
+
+Definition ends_final (m : mode) (its : list (N * value)) : Prop :=
+  match m with
+  | Single => exists x, its = [x]
+  | Loop final => exists pre i v, its = pre ++ [(i, v)] /\ final i = true /\ forall j u, In (j, u) pre -> final j = false
+  end.
+
+Lemma polls_of_loop q T id final : q_mode q = Loop final -> forall k w its,
+  valid_id w id -> settled (get_conn w id) ->
+  ev_items (fst (seq_loop k (q_replies q) final (k_buf (get_conn w id)))) = map Some its ->
+  (exists pre i v, its = pre ++ [(i, v)] /\ final i = true /\ forall j u, In (j, u) pre -> final j = false) ->
+  polls_ok q T id PLoop w its.
+Proof.
+  intros Hm. induction k as [|k IH]; intros w its Hv Hs He Hfin.
+  { cbn in He. destruct its; [|discriminate]. destruct Hfin as [pre [i [v [E _]]]]. destruct pre; discriminate. }
+  cbn [seq_loop] in He. pose proof (seq_next_is_rp q id (w_now w + T) w Hs ltac:(lia)) as P. unfold is_final in P. rewrite Hm in P.
+  destruct (rp_items (q_replies q) (k_buf (get_conn w id))) as [RI RW].
+  destruct (rp (q_replies q) (k_buf (get_conn w id))) as [evs [[[i v] r]|]] eqn:Erp; cbn [fst snd] in RI, RW.
+  - set (w1 := write_t (at_time (put_conn w id {| k_queue := []; k_close := true; k_buf := r |}) (w_now w)) id ACK) in *.
+    destruct (final i) eqn:Hf.
+    + cbn [fst] in He. rewrite ev_items_app, RI in He. cbn in He.
+      destruct its as [|[i' v'] [|x its']]; try discriminate. inversion He; subst i' v'. eapply po_last. exact P.
+    + destruct (seq_loop k (q_replies q) final r) as [t r'] eqn:El. cbn [fst] in He.
+      rewrite !ev_items_app, RI in He. cbn [app ev_items] in He.
+      destruct its as [|[i' v'] its']; [discriminate|]. cbn [map] in He. inversion He as [[Ei Ev He']]. subst i' v'. clear He. rename He' into He.
+      destruct Hfin as [pre [i2 [v2 [E [F1 F2]]]]].
+      destruct pre as [|p0 pre'].
+      * cbn in E. inversion E; subst. congruence.
+      * cbn [app] in E. inversion E as [[Ep E']]. subst p0.
+        eapply po_more; [exact P|].
+        assert (Hv1 : valid_id w1 id) by (unfold valid_id, w1; cbn; rewrite set_conn_length; exact Hv).
+        assert (G1 : get_conn w1 id = {| k_queue := []; k_close := true; k_buf := r |}) by (apply (get_put w id _ Hv)).
+        apply IH; [exact Hv1|rewrite G1; split; reflexivity| |].
+        -- rewrite G1. cbn [k_buf]. rewrite El. cbn [fst]. first [exact He|rewrite <- E'; exact He].
+        -- exists pre', i2, v2. split; [first [exact E'|reflexivity]|]. split; [exact F1|]. intros j u Hin. apply (F2 j u). right. exact Hin.
+  - cbn [fst] in He. rewrite RI in He. destruct its; discriminate.
+Qed.
+
+Lemma seq_next_start_settled q id d w : settled (get_conn w id) -> w_now w <= d ->
+  seq_next q id PStart d w =
+  let w0 := write_t w id (q_cmd q) in
+  match read_frame (k_buf (get_conn w id)) with
+  | None => NItem (IErr 0) PDone w0
+  | Some (f, r) =>
+      let w1 := at_time (put_conn w0 id {| k_queue := []; k_close := true; k_buf := r |}) (w_now w) in
+      match parse_enum FUEL ack_enum f with
+      | Ok _ => seq_next q id PLoop d w1
+      | _ => NItem (IErr 1) PDone w1
+      end
+  end.
+Proof.
+  intros Hs Hd. cbv zeta. unfold seq_next at 1, read_parse.
+  change (get_conn (write_t w id (q_cmd q)) id) with (get_conn w id). change (w_now (write_t w id (q_cmd q))) with (w_now w).
+  rewrite (read_packet_t_settled _ _ Hs).
+  destruct (read_frame (k_buf (get_conn w id))) as [[f r]|]; [|destruct (w_now w <=? d) eqn:E; [reflexivity|lia]].
+  destruct (w_now w <=? d) eqn:E; [|lia].
+  destruct (parse_enum FUEL ack_enum f) as [[ia va]|e| |]; reflexivity.
+Qed.
+
+Theorem polls_of_exchange q T id k w its : valid_id w id -> settled (get_conn w id) ->
+  ev_items (run_seq_fuel (S k) (q_mode q) (q_cmd q) ack_enum (q_replies q) (k_buf (get_conn w id))) = map Some its ->
+  ends_final (q_mode q) its ->
+  polls_ok q T id PStart w its.
+Proof.
+  intros Hv Hs He Hfin. pose proof (seq_next_start_settled q id (w_now w + T) w Hs ltac:(lia)) as P0. cbv zeta in P0.
+  unfold run_seq_fuel in He. rewrite (rp_unfold ack_enum (k_buf (get_conn w id))) in He.
+  destruct (read_frame (k_buf (get_conn w id))) as [[f r]|] eqn:Ef; [|cbn in He; destruct its; discriminate].
+  destruct (parse_enum FUEL ack_enum f) as [[ia va]|e| |]; try (cbn in He; destruct its; discriminate).
+  set (w0 := write_t w id (q_cmd q)) in *.
+  set (w1 := at_time (put_conn w0 id {| k_queue := []; k_close := true; k_buf := r |}) (w_now w)) in *.
+  assert (Hv1 : valid_id w1 id) by (unfold valid_id, w1, w0; cbn; rewrite set_conn_length; exact Hv).
+  assert (G1 : get_conn w1 id = {| k_queue := []; k_close := true; k_buf := r |}).
+  { unfold w1. apply (get_put w0 id). unfold valid_id, w0. cbn. exact Hv. }
+  assert (S1 : settled (get_conn w1 id)) by (rewrite G1; split; reflexivity).
+  assert (N1 : w_now w1 = w_now w) by reflexivity.
+  destruct (q_mode q) as [|final] eqn:Hm.
+  - (* a single reply *)
+    pose proof (seq_next_is_rp q id (w_now w + T) w1 S1 ltac:(lia)) as P1. rewrite G1 in P1. cbn [k_buf] in P1. unfold is_final in P1. rewrite Hm in P1.
+    destruct (rp_items (q_replies q) r) as [RI RW].
+    destruct (rp (q_replies q) r) as [e2 [[[i v] r2]|]] eqn:Erp; cbn [fst snd] in RI, RW.
+    + cbn [ev_items] in He. rewrite !ev_items_app, RI in He. cbn in He.
+      destruct its as [|[i' v'] [|x its']]; try discriminate. inversion He; subst i' v'.
+      eapply po_last. rewrite P0. exact P1.
+    + cbn [ev_items] in He. rewrite !ev_items_app, RI in He. cbn in He. destruct its; discriminate.
+  - (* a loop: the first poll also takes the first reply *)
+    cbn [ev_items] in He. rewrite ev_items_app in He. cbn [ev_items app] in He.
+    pose proof (polls_of_loop q T id final Hm (S k) w1 its Hv1 S1) as PL. rewrite G1 in PL. cbn [k_buf] in PL.
+    specialize (PL He Hfin).
+    (* the PStart poll is the PLoop poll on w1, whose deadline is the same because time did not move *)
+    inversion PL as [ph0 w0' i v w' E|ph0 w0' i v w2 its0 E Hrest]; subst.
+    + eapply po_last. rewrite P0. rewrite N1 in E. exact E.
+    + eapply po_more; [rewrite P0; rewrite N1 in E; exact E|exact Hrest].
+Qed.
+
+(* THE end-to-end statement for a call on a connection that already holds the whole reply script: the result is the handler folded
+   over exactly the items the trace model reads from those bytes *)
+Corollary call_on_buffered_replies {A B} cfg (h : A -> N -> value -> option (cres B) * A) fin q T id k its fuel w acc :
+  w_cur w = Some id -> valid_id w id -> settled (get_conn w id) ->
+  ev_items (run_seq_fuel (S k) (q_mode q) (q_cmd q) ack_enum (q_replies q) (k_buf (get_conn w id))) = map Some its ->
+  ends_final (q_mode q) its -> (length its < fuel)%nat ->
+  fst (consume fuel cfg (start_retry q T) w acc h fin) = run_handler h fin acc its.
+Proof.
+  intros C Hv Hs He Hfin Hf. apply (call_follows_polls cfg h fin q T id its fuel w acc C); [|exact Hf].
+  apply (polls_of_exchange q T id k w its Hv Hs He Hfin).
+Qed.
